@@ -33,6 +33,7 @@ SPEC = {
         'AITB.Trie.filtermap_filter_spec',
         'AITB.Trie.FMFInv_emplace',
         'AITB.Trie.filtermapF_filter_spec',
+        'AITB.Trie.sameIds_sound',
         'AITB.Trie.assign_step',
         'AITB.Trie.permute_subset',
         'AITB.Trie.reconstruct_compatible',
